@@ -1442,12 +1442,15 @@ class GroupByCumulative(Expr, GroupByBase):
     @functools.cached_property
     def _meta(self):
         cols = None if self._slice is None else self._slice
-        return _apply_chunk(
-            self.frame._meta,
-            *self._by_meta,
-            chunk=self.chunk,
-            columns=cols,
-            **self.numeric_only,
+        # (the metas of Series/Index grouping keys are non-empty as well)
+        return make_meta(
+            _apply_chunk(
+                meta_nonempty(self.frame._meta),
+                *self._by_meta,
+                chunk=self.chunk,
+                columns=cols,
+                **self.numeric_only,
+            )
         )
 
     def _divisions(self):
@@ -1485,7 +1488,11 @@ class GroupByCumulative(Expr, GroupByBase):
 
         by = self.by.copy()
         for i, b in enumerate(by):
-            if not isinstance(b, Expr):
+            if isinstance(b, Expr):
+                # the finalizer needs every key as a column of the partition
+                frame = Assign(frame, f"_by_expr_{i}", b)
+                by[i] = f"_by_expr_{i}"
+            else:
                 if b in self.frame.columns:
                     frame = Assign(frame, f"_by_{b}", self.frame[b])
                 else:
